@@ -95,16 +95,20 @@ def removeAt : Children → List String → Children
   | cs, [n] => eraseC n cs
   | cs, n :: rest =>
     match lookupC n cs with
-    | some (.dir cs') => insertC n (.dir (removeAt cs' rest)) cs
+    | some (.dir cs') => updateC n (fun _ => .dir (removeAt cs' rest)) cs
     | _ => cs
 
-/-- Put `t` at the path; the parent must exist as a directory (else no-op). -/
+/-- Put `t` at the path (replacing what is there); the parent must exist as a
+directory (else no-op). -/
 def insertAt (t : Tree) : Children → List String → Children
   | cs, [] => cs
-  | cs, [n] => insertC n t cs
+  | cs, [n] =>
+    match lookupC n cs with
+    | some _ => updateC n (fun _ => t) cs
+    | none => insertC n t cs
   | cs, n :: rest =>
     match lookupC n cs with
-    | some (.dir cs') => insertC n (.dir (insertAt t cs' rest)) cs
+    | some (.dir cs') => updateC n (fun _ => .dir (insertAt t cs' rest)) cs
     | _ => cs
 
 def joinPath (pre n : String) : String := if pre = "" then n else pre ++ "/" ++ n
